@@ -1236,6 +1236,9 @@ class CodeGenerator(NodeVisitor):
             )
             self.indent()
             self.buffer(loop_frame)
+            # the body and else branch of a recursive loop are written inside
+            # this function, outside of any enclosing Python loop
+            outer_loop_nesting, self._loop_nesting = self._loop_nesting, 0
 
             # Use the same buffer for the else frame
             else_frame.buffer = loop_frame.buffer
@@ -1329,6 +1332,7 @@ class CodeGenerator(NodeVisitor):
         if node.recursive:
             self.return_buffer_contents(loop_frame)
             self.outdent()
+            self._loop_nesting = outer_loop_nesting
             self.start_write(frame, node)
             self.write(f"{self.choose_async('await ')}loop(")
             if self.environment.is_async:
